@@ -229,6 +229,9 @@ func (h *hctr) EncryptBytes(ciphertext, plaintext []byte) {
 		panic("cipher: invalid buffer overlap")
 	}
 
+	// only ciphertext[:len(plaintext)] is written and hashed
+	ciphertext = ciphertext[:len(plaintext)]
+
 	var z1, z2 [blockSize]byte
 	// a) z1 generation
 	h.uhash(plaintext[blockSize:], &z1)
@@ -253,6 +256,9 @@ func (h *hctr) DecryptBytes(plaintext, ciphertext []byte) {
 	if alias.InexactOverlap(plaintext[:len(ciphertext)], ciphertext) {
 		panic("cipher: invalid buffer overlap")
 	}
+
+	// only plaintext[:len(ciphertext)] is written and hashed
+	plaintext = plaintext[:len(ciphertext)]
 
 	var z1, z2 [blockSize]byte
 
